@@ -182,9 +182,29 @@ def check(ctx, rule, name):
     for g in set(inl):
         ctx.functions.add(g)
     n = 0
-    for ok, kind, desc, detail in compare(ent['exits'], actual):
+    res = list(compare(ent['exits'], actual))
+    strict_fail = [(kind, desc, detail) for ok, kind, desc, detail in res if not ok]
+    lostf = []
+    if strict_fail:
+        # the description differs from the reviewed one.  A deviation is reported only if a reviewed decision, result or effect is
+        # no longer made by the function (engine.facts): a re-arrangement (loop <-> adaptor, combinators, flags, helper
+        # boundaries) loses nothing; a removed / weakened check, a changed operand or a dropped effect does.
+        from . import facts as _facts
+        lostf, nr, na = _facts.lost(ent['exits'], actual)
+        ctx.note('%s: %d of %d reviewed entries differ in shape; %d of %d reviewed facts lost' % (name, len(strict_fail), len(res), len(lostf), nr))
+    for ok, kind, desc, detail in res:
         n += 1
-        ctx.ob(rule, name, '%s: %s' % (kind, desc), ok, **detail)
+        if ok or not strict_fail:
+            ctx.ob(rule, name, '%s: %s' % (kind, desc), ok, **detail)
+        else:
+            ctx.ob(rule, name, '%s: %s' % (kind, desc), True, restructured=True)
+    if strict_fail:
+        from . import facts as _facts
+        for f in lostf:
+            n += 1
+            ctx.ob(rule, name, 'reviewed fact kept: %s' % short(_facts.render(f), 260), False,
+                   problem='the function no longer makes this reviewed decision / produces this result / performs this effect',
+                   shape_differences=['%s: %s' % (k, short(d, 160)) for k, d, _ in strict_fail[:4]])
     for o in ent.get('order', []):
         n += 1
         a, _, bname = o.partition(' before ')
